@@ -67,7 +67,19 @@ def gen_case(rng, ctx, kind):
         events.append([int(rng.integers(0, n_views + 1)), ops.gen_op(rng, keys, max_value=maxv, big=0.1)])
     return {"cfg": cfg, "views": [pick(rng, ["helpers.attach_shared_memory", "attach_existing_shm"]) for _ in range(n_views)],
             "events": events, "drop_order": pick(rng, ["views-first", "owner-first"]), "strangers": [hx(rand_key(rng, 0, 5))],
+            "built_by": pick(rng, ["factory", "class"]),
             "draw_seed": int(rng.integers(1, 2**30))}
+
+
+def make_by(cfg, how, shared_memory):
+    s = sk()
+    kind = cfg["kind"]
+    if how == "class" and kind in state.CMS_KINDS:
+        if kind == "linear":
+            return s.CountMinLinear(cfg["width"], cfg["depth"], shared_memory=shared_memory)
+        cls = s.CountMinLog16 if kind == "log16" else s.CountMinLog8
+        return cls(cfg["width"], cfg["depth"], cfg["max_count"], cfg["num_reserved"], shared_memory=shared_memory)
+    return state.make(cfg, shared_memory=shared_memory)
 
 
 def attach(how, cfg, owner):
@@ -109,8 +121,12 @@ def run_case(case, ctx, mon):
     cfg = case["cfg"]
     kind = cfg["kind"]
     is_log = kind in ("log16", "log8")
-    plain = state.make(cfg)
-    owner = state.make(cfg, shared_memory=True)
+    # owner / ordinary sketch built through the class constructor or through the CountMin() factory; views through
+    # helpers.attach_shared_memory (factory) or attach_existing_shm: all routes must agree on every parameter
+    how = case.get("built_by", "factory")
+    plain = make_by(cfg, how, False)
+    owner = make_by(cfg, how, True)
+    mon.seen("owner_built_by", f"{kind}:{how}")
     name = owner.shm.name.lstrip("/")
     path = "/dev/shm/" + name
     mon.check(os.path.exists(path), "owner-segment-exists", name=name)
@@ -120,6 +136,11 @@ def run_case(case, ctx, mon):
     if kind != "hll":
         owner.n_added_records[1] = np.uint64(7)
         plain.n_added_records[1] = np.uint64(7)
+    for pname in ("max_count", "num_reserved", "width", "depth", "p", "seed", "max_key_len"):
+        if pname in cfg:
+            for hname, hobj in [("ordinary", plain)] + handles:
+                mon.check(int(getattr(hobj, pname)) == int(cfg[pname]), "handle-has-the-requested-parameter", handle=hname, parameter=pname,
+                          got=int(getattr(hobj, pname)), want=int(cfg[pname]), cfg=cfg, built_by=how)
     agree(mon, plain, handles, kind, universe, cfg, "attach")
     used = set()
     for n_op, (hi, op) in enumerate(case["events"]):
